@@ -93,6 +93,26 @@ def _template_cases():
         yield ("mapped", p, {"e0": ["prov", "e0"], "x": [["i", 0], ["i", 1], ["i", 2]]}, [None, [2, 1, 0]])
     p = T.mapped_node("product", two_params=True)
     yield ("mapped-product", p, {"e0": ["prov", "e0"], "x": [["i", 0], ["i", 1]], "w": [["w", 0], ["w", 1]]}, [None])
+    # a mapping node whose cloned broadcast input is renamed on the wrapper and mutated by the inner function
+    inner = T.prog([T.fn("mb", ["x", "cfg"], ["b0"], behav={"py": "(cfg.append(x), tuple(cfg))[1]"})], name="item")
+    p = T.prog([T.gnode("item", inner, map_over=["x"], clone=["cfg"], rename_in={"cfg": "cfgs"}), T.fn("md", ["b0"], ["d0"])])
+    yield ("mapped-renamed-clone", p, {"x": [["i", 0], ["i", 1], ["i", 2]], "cfgs": {"$list": [["c", 0]]}}, [None])
+    # runner.map: one result per item IN INPUT ORDER under every completion order and every worker-pool size
+    from . import c15
+
+    yield ("runner.map", c15.map_item_graph(False), {"x": [["i", 0], ["i", 1], ["i", 2], ["i", 3]]}, [None])
+    yield ("runner.map", c15.map_item_graph(True), {"x": [["i", 0], ["i", 1], ["i", 2]]}, [None])
+    # ... with one ITEM failing in its second step (a fault tied to the item, not to a global invocation index, so that it is
+    # the same fault under every schedule), errors raised and errors collected
+    import copy as _copy
+
+    fm = _copy.deepcopy(c15.map_item_graph(True))
+    fm["nodes"][1]["fail_args"] = {"b0": [["mb", 0, [["x", ["i", 1]]]]]}
+    yield ("runner.map", fm, {"x": [["i", 0], ["i", 1], ["i", 2]]}, [None])
+    yield ("runner.map-continue", fm, {"x": [["i", 0], ["i", 1], ["i", 2]]}, [None])
+
+
+FAMILY_EXTRA = {"runner.map": {"method": "map", "map_over": "x"}, "runner.map-continue": {"method": "map", "map_over": "x", "error_handling": "continue"}}
 
 
 def _cases(tier):
@@ -115,6 +135,8 @@ def shards(tier, seed):
 def _fault_sets(prog, tier, family):
     nids = [s["id"] for s in T.all_specs(prog) if s["kind"] == "fn"]
     yield frozenset()
+    if family.startswith("runner.map"):
+        return  # (a global invocation index names different items under different schedules: item-bound faults are used instead)
     for n in nids:
         yield frozenset([(n, 0)])
     if family == "dag" or tier == "thorough":
@@ -170,7 +192,9 @@ def check_case(acc, family, prog, inputs, order, faults, tier, witness_base, bas
         ap["order"] = list(order)
     fset = set(faults) if faults else None
     h0 = H(fault=fset)
-    x0 = execute(sp, inputs, runner="sync", h=h0, error_handling=eh, max_iterations=max_iterations)
+    extra = dict(FAMILY_EXTRA.get(family, {}))
+    eh = extra.pop("error_handling", eh)
+    x0 = execute(sp, inputs, runner="sync", h=h0, error_handling=eh, max_iterations=max_iterations, **extra)
     acc.evaluations += 1
     acc.traces += 1
     ref = x0.view()
@@ -185,7 +209,7 @@ def check_case(acc, family, prog, inputs, order, faults, tier, witness_base, bas
 
         def run(ch):
             h = H(ch, suspend=True, fault=fset)
-            x = execute(ap, inputs, runner="async", chooser=ch, h=h, error_handling=eh, max_concurrency=mc, max_iterations=max_iterations)
+            x = execute(ap, inputs, runner="async", chooser=ch, h=h, error_handling=eh, max_concurrency=mc, max_iterations=max_iterations, **extra)
             return x
 
         for ch, x in explore(run, bound=bound, max_execs=5000, stats=stats):
@@ -212,7 +236,7 @@ def _compare(ref, ref_calls, x, faults):
     if x.deadlock or x.horizon:
         return [({"symptom": "deadlock" if x.deadlock else "horizon"}, "async run did not terminate under this schedule")]
     v = x.view()
-    if ref[0] in ("completed", "paused") :
+    if ref[0] in ("completed", "paused", "list"):
         if v != ref:
             out.append(({"symptom": "outcome-differs", "sync": ref[0], "async": v[0]}, f"async outcome {jsonable(v)} differs from sync outcome {jsonable(ref)}"))
         elif _calls(x.h) != ref_calls:
@@ -236,13 +260,13 @@ def run_shard(shard):
         if ci % k != s:
             continue
         hb = H()
-        xb = execute(T.set_async(prog, False), inputs, runner="sync", h=hb, error_handling="raise")
+        xb = execute(T.set_async(prog, False), inputs, runner="sync", h=hb, **{"error_handling": "raise", **FAMILY_EXTRA.get(family, {})})
         base = (xb.view(), _calls(hb))
         for order in ords:
             for faults in _fault_sets(prog, tier, family):
                 case = (family, ci, tuple(order) if order else None, tuple(sorted(faults)))
                 acc.key(case)
-                wb = {"case": jsonable(case), "program": prog, "inputs": jsonable(inputs), "order": list(order) if order else None, "faults": sorted(list(f) for f in faults)}
+                wb = {"case": jsonable(case), "family": family, "program": prog, "inputs": jsonable(inputs), "order": list(order) if order else None, "faults": sorted(list(f) for f in faults)}
                 if len(acc.samples) < 1 and faults:
                     acc.sample(wb)
                 check_case(acc, family, prog, inputs, order, faults, tier, wb, base)
@@ -273,17 +297,19 @@ def replay(rep):
         sp["order"] = ap["order"] = rep["order"]
     fset = set(faults) if faults else None
     h0 = H(fault=fset)
-    x0 = execute(sp, rep["inputs"], runner="sync", h=h0, error_handling=eh, max_iterations=rep.get("max_iterations"))
+    extra = dict(FAMILY_EXTRA.get(rep.get("family"), {}))
+    eh = extra.pop("error_handling", eh)
+    x0 = execute(sp, rep["inputs"], runner="sync", h=h0, error_handling=eh, max_iterations=rep.get("max_iterations"), **extra)
     msgs = list(snapshot_violations(h0, None))
     if not faults:
         hb = H()
-        xb = execute(T.set_async(prog, False), rep["inputs"], runner="sync", h=hb, error_handling="raise")
+        xb = execute(T.set_async(prog, False), rep["inputs"], runner="sync", h=hb, error_handling=eh, **extra)
         if (xb.view(), _calls(hb)) != (x0.view(), _calls(h0)):
             msgs.append("sync outcome depends on the node-list order")
     if rep["runner"] == "async":
         def run(ch):
             h = H(ch, suspend=True, fault=fset)
-            return execute(ap, rep["inputs"], runner="async", chooser=ch, h=h, error_handling=eh, max_concurrency=rep.get("max_concurrency"), max_iterations=rep.get("max_iterations"))
+            return execute(ap, rep["inputs"], runner="async", chooser=ch, h=h, error_handling=eh, max_concurrency=rep.get("max_concurrency"), max_iterations=rep.get("max_iterations"), **extra)
 
         ch, x = run_once(run, rep["choices"])
         msgs += [m for _, m in _compare(x0.view(), _calls(h0), x, faults)]
